@@ -779,3 +779,33 @@ Proof.
   exists w3_cls, w3_h0, [], w3_A, w3_B, pA, fA, pB, fB, a, b, hf.
   repeat (split; [assumption|]). split; [|exact Hh]. rewrite Ha, Hs. discriminate.
 Qed.
+
+(* ------------------------------------------------------------------ overlapped calls are among the interleavings *)
+(* [par_run] does not serialise the two calls: on the current code the second call of one closure performs
+   actions while the first call is in flight (started, not finished), and from there both run to their ends
+   with their own arguments.  (The model has no lock: a closure that made its calls take turns would
+   not be this model - the harness requires all children of concurrent calls to be alive together.) *)
+Definition w3_cl : closure := {| cl_kind := KRun; cl_cmd := "echo"; cl_baked := sl 0 0 1 2 |}.
+
+Lemma overlap_admitted :
+  let pA := closure_call true w3_cl [] (sl 1 0 1 1) in
+  let pB := closure_call true w3_cl [] (sl 2 0 1 1) in
+  exists p1 h1 p2 h2 q1 h3 q2 h4 a b hf,
+    step pA w3_h0 = Some (p1, h1) /\ step p1 h1 = Some (p2, h2) /\       (* the first call has started *)
+    step pB h2 = Some (q1, h3) /\ step q1 h3 = Some (q2, h4) /\          (* the second call starts while it is in flight *)
+    step p2 h4 <> None /\ step q2 h4 <> None /\                          (* neither has finished *)
+    par_run p2 q2 h4 a b hf /\ par_run pA pB w3_h0 a b hf /\
+    a = ["echo"; "x"; "a"] /\ b = ["echo"; "x"; "b"] /\ firstn (length w3_h0) hf = w3_h0.
+Proof.
+  intros pA pB.
+  do 8 eexists.
+  pose proof (fun p2 q2 h4 => par_exec_sound (RA := list string) (RB := list string) [] p2 q2 h4) as Hs.
+  eexists; eexists; eexists.
+  split; [reflexivity|]. split; [reflexivity|]. split; [reflexivity|]. split; [reflexivity|].
+  split; [discriminate|]. split; [discriminate|].
+  split; [apply Hs|].
+  split.
+  - eapply par_left; [reflexivity|]. eapply par_left; [reflexivity|].
+    eapply par_right; [reflexivity|]. eapply par_right; [reflexivity|]. apply Hs.
+  - split; [vm_compute; reflexivity|split; [vm_compute; reflexivity|vm_compute; reflexivity]].
+Qed.
